@@ -109,6 +109,12 @@ def run_one(lz4c, b, d, case):
     rec = {"ev": "lz4c", "case": case["id"], "flags": fl_, "files": case["files"], "name": name, "mode": case["mode"]}
     try:
         if case["files"]:
+            # every third case finds older, longer output files in place (same permission bits): they are replaced, not patched
+            stale = case["id"] % 3 == 0 and case["mode"] & 0o200
+            junk = bytes((i * 37 + 11) & 255 for i in range(len(data) + 70000))
+            if stale:
+                open(fpath + ".lz4", "wb").write(junk)
+                os.chmod(fpath + ".lz4", case["mode"])
             p = subprocess.run([lz4c] + args + [name], cwd=wd, stdout=subprocess.PIPE, stderr=subprocess.PIPE, timeout=600)
             zpath = fpath + ".lz4"
             znames = [x for x in os.listdir(wd) if x != name]
@@ -121,6 +127,9 @@ def run_one(lz4c, b, d, case):
             if os.path.exists(zpath):
                 shutil.copy(zpath, os.path.join(ud, name + ".lz4"))
                 os.chmod(os.path.join(ud, name + ".lz4"), rec["zmode"] if rec["zmode"] >= 0 else 0o644)
+                if stale:
+                    open(os.path.join(ud, name), "wb").write(junk)
+                    os.chmod(os.path.join(ud, name), rec["zmode"] if rec["zmode"] >= 0 else 0o644)
             u = subprocess.run([lz4c, "uncompress", name + ".lz4"], cwd=ud, stdout=subprocess.PIPE, stderr=subprocess.PIPE, timeout=600)
             rec["uexit"] = u.returncode
             back = os.path.join(ud, name)
